@@ -153,6 +153,11 @@ def standard_plan(ctx, visitor, depths_quick=(8, 7, 6, 5, 5), depths_thorough=(1
             tasks += list(tree_tasks(dict(N=N, r=2.0, box=boxes[0], other=other), "A013", d, visitor, split=2))
         tasks += list(tree_tasks(dict(N=N, r=2.0, box=boxes[0], itersLimit=3), "A013", d + 1, visitor, split=2))
         tasks += list(tree_tasks(dict(N=N, r=3.5, box=boxes[0], itersLimit=2), "A01", d + 2, visitor, split=2, batch=2))
+        # a Problem that declares constraints (only its objective is evaluated by this solver), and read-only queries of
+        # solver.evolvent (inverse images of an arbitrary box point) between the calls
+        tasks += list(tree_tasks(dict(N=N, r=2.0, box=boxes[0], constraints=2), "A013", d, visitor, split=2))
+        if N >= 2:
+            tasks += list(tree_tasks(dict(N=N, r=2.0, box="B1", probe=True), "A013", d, visitor, split=2))
     if long_runs:
         envs = ("abs13", "const", "lin", "stair")
         # into the resolution horizon: monotone / V-shaped objectives iterated until doubles cannot split the interval
@@ -236,6 +241,7 @@ def describe(tasks):
                   (" holder=fresh" if c.get("holder") else "") + (f" other={c['other']}" if c.get("other") else "") + \
                   (f" itersLimit={c['itersLimit']}" if c.get("itersLimit") else "") + \
                   (f" density={c['density']}" if c.get("density") else "") + \
+                  (" constraints=2" if c.get("constraints") else "") + (" evolvent probed" if c.get("probe") else "") + \
                   (f" batch={t['batch']}" if t.get("batch", 1) != 1 else "")
             trees[key] = trees.get(key, 0) + len(t["alphabet"]) ** (t["depth"] - len(t["prefix"]))
         else:
